@@ -93,15 +93,17 @@ claim("C30", "model_checking", "TLA+ contract + runner machine (TLC enumerates p
       "Trusted: TLC, the package renderer. Domain restriction: a function declaring a panic does not print before panicking. Open known finding: empty `// Output:`.",
       "DESIGN.md section 4 C30")
 
-claim("C17", "model_checking", "TLA+ transcription of the RISC-V and LoongArch64 instruction formats (EncFmt.tla: fixed bits per mnemonic, field placement, representable immediates) evaluated by TLC + the repository's encoders and decoders on every case",
+claim("C17", "model_checking", "TLA+ transcription of the RISC-V and LoongArch64 instruction formats (EncFmt.tla) and of the x86-64 ModRM/SIB rules (X64ModRM.tla) evaluated by TLC + the repository's encoders, decoders and x86asm disassembler on every case",
       "EncFmt.tla lists, from the ISA manuals and independently of the repository's tables, 51 RV64I+M mnemonics and 96 LoongArch64 mnemonics (3R, shift-immediate, 12/20-bit "
       "immediates, loads/stores, the three branch offset splits, ALSL/BYTEPICK, FP 3F and FCMP) with their fixed bits, and per format where each register number and immediate bit goes "
       "and which immediates the format can carry. TLC evaluates the word (as two 16-bit halves) for 9 register tuples that tell the fields apart x the immediates at every field limit, "
       "one beyond, alternating bits and misaligned values (9 000 cases; three hand-checked manual encodings are an invariant). The harness encodes each case with riscv.EncodeRV64 / "
       "loong64.EncodeLA64: a representable case must yield exactly the specified word, an unrepresentable one must be rejected (error or assert), and the repository's Decode of every "
       "correct word must return the mnemonic and operands.",
-      "Partial claim: AArch64 and x86-64 encoders are not covered (no TLA+ specification of their tables; the golang.org/x/arch disassemblers the property names are not installed) - "
-      "the independent decoder is the specification's own field read-back. RISC-V CSR/fence/atomic/FP and the remaining LoongArch instructions are not in the tables.",
+      "x86-64 part (X64ModRM.tla): REX/ModRM/SIB/displacement rules of the SDM for mov/add/sub/and/or/xor/cmp/lea in register-register, load and store forms over all 16 "
+      "registers x 12 displacements (6 208 cases); x64.Encode's bytes must disassemble - with the repository's copy of golang.org/x/arch x86asm - to the same operation, operands "
+      "and length (the manual's shortest form is recorded, not required). Partial claim: AArch64 is not covered; RISC-V CSR/fence/atomic/FP, the remaining LoongArch instructions "
+      "and the rest of the x86-64 table are not in the specifications. For RISC-V/LoongArch the independent decoder is the specification's own field read-back.",
       "DESIGN.md section 4 (C17)")
 claim("C18", "model_checking", "TLA+ CPU recombination on bit-vectors evaluated by TLC + the integer form discharged by Apalache (SMT) for all offsets + one execution of the Go functions per TLC case",
       "PcRel.tla states, on BV bit-vectors, what auipc+addi (RISC-V) and pcalau12i+addi.d (LoongArch) compute from the 20- and 12-bit instruction fields, and the reference "
